@@ -660,6 +660,12 @@ func (p *Parser) parseFieldElements(curObj *Object) parseResult {
 					if parseRes == parseResultFailed {
 						return parseRes
 					}
+
+					// The buffer data must lie within the buffer package
+					if dataLen > uint64(p.r.pkgEnd-p.r.Offset()) {
+						kfmt.Fprintf(p.errWriter, "[table: %s, offset: 0x%x] Connection buffer length exceeds its package length\n", p.tableName, p.r.Offset())
+						return parseResultFailed
+					}
 				}
 
 				connArg = p.objTree.newObject(pOpIntByteList, p.tableHandle)
